@@ -19,6 +19,8 @@ type callCont struct {
 type TheoryFn func(x *Exec, f *Frame, st *State, c *CallInfo) Val
 
 type CallInfo struct {
+	x      *Exec
+	st     *State
 	Name   string
 	Args   []Val
 	Instr  ssa.CallInstruction
@@ -32,6 +34,19 @@ func (c *CallInfo) T(i int) *Term {
 		return nil
 	}
 	t, _ := c.Args[i].(*Term)
+	if t == nil && c.x != nil {
+		// pointer to an integer-like cell (*big.Int): read it
+		if pv, ok := c.Args[i].(*PtrVal); ok {
+			if v, ok := c.x.load(c.st, pv).(*Term); ok {
+				return v
+			}
+		}
+		if iv, ok := c.Args[i].(*IfaceVal); ok {
+			if v, ok := iv.Dyn.(*Term); ok {
+				return v
+			}
+		}
+	}
 	return t
 }
 
@@ -39,7 +54,7 @@ func single(st *State, v Val) []callCont { return []callCont{{st: st, val: v}} }
 
 func (x *Exec) doCall(f *Frame, st *State, instr ssa.CallInstruction, cc *ssa.CallCommon) []callCont {
 	var args []Val
-	info := &CallInfo{Instr: instr, Common: cc, Pos: x.pos(instr.Pos())}
+	info := &CallInfo{x: x, st: st, Instr: instr, Common: cc, Pos: x.pos(instr.Pos())}
 	if v := instr.Value(); v != nil {
 		info.ResTyp = v.Type()
 	}
